@@ -53,36 +53,82 @@ func (c *Ctx) findFanout() fanout {
 	return out[0]
 }
 
-// branchEdges: edges entering the handling of one broadcast kind for ordinary (non-multiplex) sessions.
-func (c *Ctx) fanoutBranch(fo fanout, kind string) map[core.Edge]bool {
+// fanoutFiltered: from the branch edges the sink is unreachable once the pass edges of guards are cut.
+func (c *Ctx) fanoutFiltered(fo fanout, kind string, guards ...core.Guard) (bool, []int) {
+	return c.fanoutFilteredFrom(fo, c.fanoutBranchGuard(kind), guards...)
+}
+
+func (c *Ctx) fanoutBranchGuard(kind string) core.Guard {
 	presF := c.field("server", "ServerComMessage", "Pres")
 	infoF := c.field("server", "ServerComMessage", "Info")
 	switch kind {
 	case "pres":
-		pe, _ := core.PassEdges(fo.fn, core.NilGuard("msg.Pres!=nil", core.IsFieldLoad(presF), false))
-		return pe
+		return core.NilGuard("msg.Pres!=nil", core.IsFieldLoad(presF), false)
 	case "info":
-		pe, _ := core.PassEdges(fo.fn, core.NilGuard("msg.Info!=nil", core.IsFieldLoad(infoF), false))
-		return pe
-	case "data":
-		pe, _ := core.PassEdges(fo.fn, core.NilGuard("msg.Info==nil", core.IsFieldLoad(infoF), true))
-		return pe
+		return core.NilGuard("msg.Info!=nil", core.IsFieldLoad(infoF), false)
 	}
-	return nil
+	return core.NilGuard("msg.Info==nil", core.IsFieldLoad(infoF), true)
 }
 
-// fanoutFiltered: from the branch edges the sink is unreachable once the pass edges of guards are cut.
-func (c *Ctx) fanoutFiltered(fo fanout, kind string, guards ...core.Guard) (bool, []int) {
-	edges := c.fanoutBranch(fo, kind)
-	if len(edges) == 0 {
-		return false, nil
+// fanoutFilteredFrom: from the pass edges of `start` the sink is unreachable once the pass edges
+// of the guards are cut. When the per-recipient decision was extracted into a predicate (the sink
+// is behind `if pred(...)`), the same is decided inside the predicate: from the start edges no
+// return of the accepting outcome is reachable without a pass edge (parameters substituted).
+func (c *Ctx) fanoutFilteredFrom(fo fanout, start core.Guard, guards ...core.Guard) (bool, []int) {
+	edges, _ := core.PassEdges(fo.fn, start)
+	back := loopBackEdges(fo.fn)
+	if len(edges) > 0 {
+		cut, cnt := core.PassEdges(fo.fn, guards...)
+		for e := range back {
+			cut[e] = true
+		}
+		found, _ := core.PathFromEdgeAvoiding(fo.fn, edges, func(in ssa.Instruction) bool { return in == fo.sink }, nil, cut)
+		return !found, cnt
 	}
-	cut, cnt := core.PassEdges(fo.fn, guards...)
-	for e := range loopBackEdges(fo.fn) {
-		cut[e] = true
+	// extracted decision predicate
+	startsOf := func(fn *ssa.Function) map[core.Edge]bool {
+		pe, _ := core.PassEdges(fn, start)
+		return pe
 	}
-	found, _ := core.PathFromEdgeAvoiding(fo.fn, edges, func(in ssa.Instruction) bool { return in == fo.sink }, nil, cut)
-	return !found, cnt
+	for _, b := range fo.fn.Blocks {
+		ifi, ok := b.Instrs[len(b.Instrs)-1].(*ssa.If)
+		if !ok {
+			continue
+		}
+		a := core.NormCond(ifi.Cond)
+		call, isCall := a.Val.(*ssa.Call)
+		if !isCall || !core.InModule(call.Call.StaticCallee()) {
+			continue
+		}
+		// which outcome leads to the sink?
+		reaches := func(idx int) bool {
+			cut := map[core.Edge]bool{{From: b, Idx: 1 - idx}: true}
+			for e := range back {
+				cut[e] = true
+			}
+			found, _ := core.PathFromEdgeAvoiding(fo.fn, map[core.Edge]bool{{From: b, Idx: idx}: true}, func(in ssa.Instruction) bool { return in == fo.sink }, nil, cut)
+			return found
+		}
+		r0, r1 := reaches(0), reaches(1)
+		if r0 == r1 {
+			continue
+		}
+		// the sink is reached on edge 0 (cond true) or 1; cond == call XOR Negated
+		acceptVal := r0 != a.Negated
+		cls := 1
+		if !acceptVal {
+			cls = -1
+		}
+		// the sink must be reachable only through this test
+		cutBoth := map[core.Edge]bool{{From: b, Idx: 0}: true, {From: b, Idx: 1}: true}
+		if core.ReachBlocks(fo.fn, nil, cutBoth)[fo.sink.Block()] {
+			continue
+		}
+		if ok, cnt := core.CalleeImplies(call, 0, "bool", cls, 0, guards, startsOf); ok {
+			return true, cnt
+		}
+	}
+	return false, make([]int, len(guards))
 }
 
 func (c *Ctx) pssdUid() core.VPred {
@@ -107,13 +153,9 @@ func (c *Ctx) checkFanoutCommon(prefix string) fanout {
 	skipF := c.field("server", "ServerComMessage", "SkipSid")
 	isMux := c.method("server", "Session", "isMultiplex")
 	// ordinary sessions: cut `sid != SkipSid` => sink unreachable from the non-multiplex edge
-	nonMux, _ := core.PassEdges(fo.fn, core.BoolGuard("!isMultiplex", core.IsCallTo(isMux, isRangeKey), false))
-	cut, cnt := core.PassEdges(fo.fn, core.EqGuard("sid!=SkipSid", core.IsFieldLoad(sidF), core.IsFieldLoad(skipF), false))
-	for e := range loopBackEdges(fo.fn) {
-		cut[e] = true
-	}
-	found, _ := core.PathFromEdgeAvoiding(fo.fn, nonMux, func(in ssa.Instruction) bool { return in == fo.sink }, nil, cut)
-	r.Check(!found && cnt[0] > 0 && len(nonMux) > 0, prefix+"-skip-session", fk(fo.fn)+": never to the session named by SkipSid", c.pos(fo.sink), "", "the originating / no-echo session can receive its own broadcast")
+	okSkip, cnt := c.fanoutFilteredFrom(fo, core.BoolGuard("!isMultiplex", core.IsCallTo(isMux, isRangeKey), false),
+		core.EqGuard("sid!=SkipSid", core.IsFieldLoad(sidF), core.IsFieldLoad(skipF), false))
+	r.Check(okSkip && cnt[0] > 0, prefix+"-skip-session", fk(fo.fn)+": never to the session named by SkipSid", c.pos(fo.sink), "", "the originating / no-echo session can receive its own broadcast")
 	// copy is per recipient: the copy call is inside the loop (reachable from the range's next) and
 	// prepare is applied to it with the recipient's uid and channel flag before queueing
 	args := core.CallArgs(&fo.prep.Call)
@@ -190,7 +232,7 @@ func loopBackEdges(fn *ssa.Function) map[core.Edge]bool {
 
 // isRangeKey: the key variable of a range loop.
 func isRangeKey(v ssa.Value) bool {
-	ex, ok := v.(*ssa.Extract)
+	ex, ok := core.Strip(v).(*ssa.Extract)
 	if !ok || ex.Index != 1 {
 		return false
 	}
